@@ -38,6 +38,7 @@ type Controller struct {
 	parked  []*Parked
 	seq     int
 	OnEvent func(point string, args []any) // called (under the controller's mutex) for every point hit
+	OnPanic func(task string, p any)       // called when a client operation started with Go panicked
 	off     bool
 	tasks   []*Task
 }
@@ -125,8 +126,9 @@ func (c *Controller) Shutdown() {
 
 // Task is a client operation started through Go.
 type Task struct {
-	Name string
-	done chan struct{}
+	Name  string
+	done  chan struct{}
+	Panic any // non-nil if the operation panicked (recovered; the scenario goes on)
 }
 
 func (t *Task) Done() bool {
@@ -146,6 +148,14 @@ func (c *Controller) Go(name string, f func()) *Task {
 	c.mu.Unlock()
 	go func() {
 		defer close(t.done)
+		defer func() {
+			if p := recover(); p != nil {
+				t.Panic = p
+				if c.OnPanic != nil {
+					c.OnPanic(name, p)
+				}
+			}
+		}()
 		f()
 	}()
 	return t
